@@ -10,7 +10,7 @@ PROPS = "Props/C19.v"
 COQ_CHECK = ("Model.C19x", "check")
 COQ_FALLBACK = ("Model.C19", "spec_ok")
 COQ_IMPORTS = "From PAV Require Import Model.C19."
-SHARD = 400
+SHARD = 1000
 RULE = ("exhaustive enumeration (see exhaustive_subspace) of constructor arguments, sub-region pixel ranges, 1-D "
         "extraction quadruples, 2-D (region, window) pairs, (shape, region, corner) rotations, each run through the "
         "public classes (aa.Region1D/2D, aa.Layout2D, Array2D.original_orientation) and the util functions; plus random "
@@ -27,9 +27,11 @@ EXHAUSTIVE = {
     "quick": "constructors on [-1..3]^2 / [-1..2]^4; sub-regions of every region in a 3x3 frame with pixel ranges in [-1..3]; "
              "1-D extraction on all quadruples in [0..6]; 2-D extraction: all (region, window) pairs in a 3x3 frame; "
              "rotation: all shapes <= 4x4, all regions, 4 corners (+2 invalid corners); read/edit/re-read history "
-             "patterns: 7 shapes x 4 corners x 3 object kinds x 13 patterns x 2 regions; call / reg.region = r2 / same call for "
-             "every 9th ordered pair of regions in a 3x3 frame (every 3rd pair in 1-D on [0..5])",
-    "thorough": "as quick with frames 4x4 for extraction / sub-regions and all shapes <= 6x6 for rotation, 1-D on [0..9]",
+             "patterns: 7 shapes x 4 corners x 3 object kinds x 13 patterns; call / reg.region = r2 / same call for "
+             "every 9th ordered pair of regions in a 3x3 frame (every 3rd pair in 1-D on [0..5]); large coordinates (up to 2^40, "
+             "python ints and numpy int64) for every region-valued operation",
+    "thorough": "as quick with frames 4x4 for extraction / sub-regions and all shapes <= 6x6 for rotation, 1-D on [0..9]; "
+                "history patterns on 11 shapes x 4 region choices; every 2nd ordered pair of regions for the re-assigned-region sessions",
 }
 TRUSTED = ["py2v translator (coq/Gen/Gen_layout.v regenerated from autoarray/layout/region.py and layout_util.py on every run; "
            "its pinned-glue assumptions: AbstractRegion.__init__/__getitem__ literal text)",
@@ -157,6 +159,10 @@ def raw_call(obj, d):
     """the same call once more, returning the region OBJECT (to be used as the receiver of later calls)"""
     return getattr(obj, SUBNAME[d["op"]])(**subargs(d))
 
+def npi(t, on):
+    """the same coordinates as numpy int64 scalars (what a caller gets from array.shape arithmetic)"""
+    return t if (t is None or not on) else tuple(np.int64(x) for x in t)
+
 def run_case(inp):
     aa = import_aa()
     from autoarray.layout import layout_util
@@ -179,7 +185,7 @@ def run_case(inp):
         out = [None if x is None else int(x) for x in r]
         coq = f"KX0X1 {cz(a[0])} {cz(a[1])} {cz(a[2])} {cz(a[3])} ({copt(out[0], cz)}, {copt(out[1], cz)})"
     elif op == "extract":
-        o, e, via = t2(inp["o"]), tuple(inp["e"]), inp["via"]
+        o, e, via = npi(t2(inp["o"]), inp.get("npint")), npi(tuple(inp["e"]), inp.get("npint")), inp["via"]
         if via == "util":
             out = reg_out(call_res(layout_util.region_after_extraction, original_region=o, extraction_region=e))
         else:
@@ -189,7 +195,7 @@ def run_case(inp):
             out = reg_out(call_res(f))
         coq = f"KExtract {copt(o, creg)} {creg(e)} {cres(out, lambda v: copt(v, creg))}"
     elif op == "rotregion":
-        r, s, c, via = t2(inp["r"]), tuple(inp["s"]), tuple(inp["c"]), inp["via"]
+        r, s, c, via = npi(t2(inp["r"]), inp.get("npint")), npi(tuple(inp["s"]), inp.get("npint")), tuple(inp["c"]), inp["via"]
         if via == "util" or r is None:
             out = reg_out(call_res(layout_util.rotate_region_via_roe_corner_from, region=r, shape_native=s, roe_corner=c))
         elif via == "rotated_from_roe_corner":
@@ -508,7 +514,7 @@ def run_lsess(aa, inp):
 def run_rsess(aa, inp):
     lab = Lab(); bad = []; coqs = []; out = []
     dim = inp["dim"]; cur = tuple(inp["r"])
-    reg = (aa.Region1D if dim == 1 else aa.Region2D)(cur)          # ONE region object
+    reg = (aa.Region1D if dim == 1 else aa.Region2D)(npi(cur, inp.get("npint")))          # ONE region object
     vals = np.array([[dec(x) for x in row] for row in inp["m"]], dtype=float) if inp.get("m") else None
     for sp in inp["steps"]:
         k = sp[0]
@@ -518,7 +524,7 @@ def run_rsess(aa, inp):
             if k == "into" and o[0] == "ok":        # the RESULT becomes the receiver of the following calls
                 reg = raw_call(reg, sp[1]); cur = tuple(o[1])
         elif k == "setregion":
-            cur = tuple(sp[1]); reg.region = cur
+            cur = tuple(sp[1]); reg.region = npi(cur, inp.get("npint"))
         elif k == "slice":                            # reg.slice on an array
             sl = vals[reg.slice] if dim == 2 else vals[:, reg.slice]
             r4 = cur if dim == 2 else (0, vals.shape[0], cur[0], cur[1])
@@ -595,7 +601,7 @@ def gen_histories(tier, rng):
         m = [[1 + y * w + x for x in range(w)] for y in range(h)]
         for ci, c in enumerate(CORNERS):
             for kind in kinds:
-                for rep in range(2 if not big else 4):
+                for rep in range(1 if not big else 4):
                     i += 1
                     r = list(pick(regs, 7 * i + rep)); r2 = list(pick(regs, 3 * i + 1 + rep)); c2 = list(CORNERS[(ci + 1 + i % 3) % 4])
                     v = -(10 + i % 7); v2 = "0.1" if i % 2 else 100 + i % 5
@@ -663,7 +669,7 @@ def gen_histories(tier, rng):
                 pats.append([["slice", 0], ["set", 0, rr[3]], ["slice", 0], ["set", 2, rr[4]], ["slice", 2], ["slice", 0],
                              ["set", 0, rr[4]], ["slice", 0]])
                 for steps in pats: yield dict(base, steps=steps)
-    for n in range(2000 if big else 300):
+    for n in range(2000 if big else 220):
         h, w = rng.randint(1, 6), rng.randint(1, 6)
         regions = [rand_region(rng, h, w) if rng.random() < 0.75 else None for _ in range(3)]
         inp = {"op": "lsess", "shape": [h, w], "c": list(rng.choice(CORNERS)), "regions": regions,
@@ -687,11 +693,11 @@ def gen_histories(tier, rng):
         inp["steps"] = steps
         yield inp
     # ---- one Region object reused: the same call before and after the user re-assigns reg.region (systematic)
-    n = 4 if big else 3
+    n = 3
     i = 0
     for r in regions_2d(n, n):
         for r2 in regions_2d(n, n):
-            if r2 == r or (not big and (i := i + 1) % 9): continue
+            if r2 == r or (i := i + 1) % (2 if big else 9): continue
             for e in ((1, 2) if big else (1 + i % 2,)):
                 calls = [["call", {"op": "parfront", "p": None, "e": e}], ["call", {"op": "serfront", "p": None, "e": e}],
                          ["call", {"op": "partrail", "p": [0, e]}], ["call", {"op": "sertrail", "p": [0, e]}]]
@@ -701,8 +707,33 @@ def gen_histories(tier, rng):
             if r2 == r or (not big and (i := i + 1) % 3): continue
             calls = [["call", {"op": "front1", "p": None, "e": 1}], ["call", {"op": "trail1", "p": [0, 2]}], ["call", {"op": "front1", "p": [0, 1], "e": None}]]
             yield {"op": "rsess", "dim": 1, "r": list(r), "m": None, "steps": calls + [["setregion", list(r2)]] + calls + [["state"]]}
+    # ---- large coordinates (value range): every region-valued operation, python ints and numpy int64
+    for n in range(1500 if big else 200):
+        B = rng.choice([10 ** 3, 2 ** 15, 2 ** 16 + 1, 2 ** 31, 2 ** 32 + 5, 10 ** 12, 2 ** 40])
+        def big_region(H, W):
+            y0 = rng.randint(0, H - 1); y1 = rng.randint(y0 + 1, H); x0 = rng.randint(0, W - 1); x1 = rng.randint(x0 + 1, W)
+            if rng.random() < 0.3: y1 = H
+            if rng.random() < 0.3: x0 = 0
+            return [y0, y1, x0, x1]
+        H, W = B + rng.randint(0, 9), B // 2 + rng.randint(1, 9)
+        r = big_region(H, W); e = big_region(H, W); npint = bool(n % 2)
+        k = n % 4
+        if k == 0: yield {"op": "rotregion", "r": r, "s": [H, W], "c": list(rng.choice(CORNERS)), "via": rng.choice(["util", "rotated_from_roe_corner", "new_rotated_from"]), "npint": npint}
+        elif k == 1: yield {"op": "extract", "o": r, "e": e, "via": rng.choice(["util", "parallel_overscan", "serial_prescan", "serial_overscan"]), "shape": [H, W], "npint": npint}
+        elif k == 2:
+            if rng.random() < 0.5:      # touching / nested intervals at large offsets
+                e = [r[0] + rng.randint(-1, 1) if r[0] > 0 else 0, r[1] + rng.randint(0, 2), r[2], r[3] + rng.randint(0, 1)]
+                e[1] = max(e[1], e[0] + 1)
+            yield {"op": "extract", "o": r, "e": e, "via": "util", "shape": [H, W], "npint": npint}
+        else:
+            d = rand_subop(rng, 2, 3)
+            if d.get("e") is not None and rng.random() < 0.5: d["e"] = rng.randint(1, B)
+            if d.get("p") is not None and rng.random() < 0.5: d["p"] = [rng.randint(0, B), rng.randint(0, 2 * B)]
+            if "sh" in d: d["sh"] = [H, W]
+            yield {"op": "rsess", "dim": 2, "r": r, "m": None, "npint": npint,
+                   "steps": [["call", d], ["into", d], ["call", d], ["setregion", e], ["call", d], ["state"]]}
     # ---- one Region object reused (random)
-    for n in range(2500 if big else 400):
+    for n in range(2500 if big else 250):
         dim = 1 if n % 4 == 0 else 2
         h, w = rng.randint(1, 6), rng.randint(1, 7)
         cur = rand_region(rng, h, w)
